@@ -299,17 +299,28 @@ def encoding(ctx, o, ps: PassShape):
     flf = flow_of(fill)
     cfg = flf.cfg
     res_p, usage_p, start_p, task_p = fill.params[1], fill.params[2], fill.params[3], fill.params[4]
-    rc = sched.reserve_calls(ctx, fill)
-    if len(rc) != 1:
+    rc_all = sched.reserve_calls(ctx, fill)
+    if len(rc_all) == 0:
         o.undecided(fill, fill.node, 'reserve', "fill loop does not contain exactly one reservation")
         return
-    rnode = cfg.node_containing(rc[0])
-    dvar = rc[0].args[1]
-    loop = sched.while_loop_of(fill, rc[0])
     for r in [n for n in walk_no_nested(fill.node) if isinstance(n, ast.Return)]:
+        # the booking whose day this result encodes: the one reservation that can precede this return (a fast path with its own
+        # booking and return is judged against its own booking)
+        rn0 = cfg.node_of(r)
+        rc = [c_ for c_ in rc_all if cfg.node_containing(c_) is not None and rn0 is not None and cfg.can_reach(cfg.node_containing(c_), rn0)]
+        if len(rc) == 0 and len(rc_all) == 1:
+            rc = rc_all         # a return before any booking (the zero-work shortcut)
+        if len(rc) != 1:
+            if not (isinstance(r.value, ast.Name) and r.value.id == start_p):
+                o.undecided(fill, r, r, f"{len(rc)} reservations can precede this result")
+                continue
+            rc = rc_all[:1]
+        rnode = cfg.node_containing(rc[0])
+        dvar = rc[0].args[1]
+        loop = sched.while_loop_of(fill, rc[0])
         rn = cfg.node_of(r)
         conds = facts.node_conditions(prog, fill, r, ctx.typer)
-        if any(loop is not None and x is r for st in loop.body for x in ast.walk(st)):
+        if loop is not None and any(x is r for st in loop.body for x in ast.walk(st)):
             o.refute(fill, r, r, "the fill loop returns from inside the loop")
             continue
         # the `left == 0` shortcut returns the start date unchanged
@@ -374,6 +385,12 @@ def encoding(ctx, o, ps: PassShape):
                         return cap_read(ds[0], depth + 1)
                 return None
             capdefs = [d for d in defs if cap_read(d) is not None]
+            if loop is not None and len(capdefs) > 1:
+                # capacity reads before the loop (a fast path that returned) are overwritten by the read of the booking iteration
+                inloop = [d for d in capdefs if d.stmt is not None and any(x is d.stmt for st_ in loop.body for x in ast.walk(st_))]
+                if len(inloop) == 1:
+                    defs = [d for d in defs if d in inloop or d not in capdefs]
+                    capdefs = inloop
             other = [d for d in defs if d not in capdefs and not (d.kind == 'assign' and isinstance(d.value, ast.Constant))]
             if len(capdefs) == 1 and not other:
                 capdefs = [cap_read(capdefs[0])]
@@ -533,10 +550,18 @@ def selectors(ctx, o, S):
                             o.undecided(f, n, n, "ledger query chosen by a condition the rule cannot relate to balance_resources")
                     else:
                         o.refute(f, n, n, f"ledger query with selector `{pr['kind']}`")
+        exs_ = Expander(prog, f, ctx.typer)
         for c in calls:
             if id(c) in done:
                 continue
             pr = parse_resv(c, S['balance'])
+            if pr is not None and pr['kind'] == 'task' and len(c.args) == 3 and isinstance(c.args[2], ast.Name):
+                # the selector hoisted into a local: `counted = None if balance else task; reserved(r, d, counted)`
+                cx = ast.copy_location(ast.Call(func=c.func, args=[c.args[0], c.args[1], exs_.expand(c.args[2], cfg_of(f).node_containing(c))],
+                                                keywords=[]), c)
+                prx = parse_resv(cx, S['balance'])
+                if prx is not None:
+                    pr = prx
             # statement form of the selector: `if self.balance: x = reserved(r, d) else: x = reserved(r, d, task)`
             bal = None
             for t, q in facts.node_conditions(prog, f, c, ctx.typer, expand=True):
@@ -637,11 +662,25 @@ def conservation(ctx, o, S):
             v = d.value.right
         else:
             return False
-        if v is c:
+        def is_call_or_zero(x, allow_zero):
+            """the reserve call itself, `<call> if <cond> else 0`, or (only next to the call) the constant 0"""
+            if x is c:
+                return 'call'
+            if isinstance(x, ast.IfExp):
+                a, b = is_call_or_zero(x.body, True), is_call_or_zero(x.orelse, True)
+                if 'call' in (a, b) and a and b:
+                    return 'call'
+                return None
+            if allow_zero and facts.const_num(x) == 0:
+                return 'zero'
+            return None
+        if is_call_or_zero(v, False) == 'call':
             return True
         if isinstance(v, ast.Name) and d.node is not None:
-            u = fl.unique_def(v.id, d.node)
-            return u is not None and u.kind == 'assign' and u.value is c
+            # `booked = reserve(..)` on one branch, `booked = 0` on the other(s)
+            us = [u for u in fl.reaching(v.id, d.node)]
+            kinds = [is_call_or_zero(u.value, True) if u.kind == 'assign' and u.value is not None else None for u in us]
+            return bool(us) and all(kinds) and 'call' in kinds
         return False
     if len(defs) != 1 or not is_booked(defs[0]):
         for d in defs:
